@@ -218,6 +218,12 @@ func buildC04(tier string) *core.Plan {
 				map[string]any{"x": map[string]any{"a": n}, "z": map[string]any{"a": m}}},
 			tmpl{"yaml-block-scalars", "yaml", fmt.Sprintf("n: %s\ns: |\n  line1\n  line2\nt: >-\n  folded\n  text\nu: 'it''s'\n", ns),
 				map[string]any{"n": n, "s": "line1\nline2\n", "t": "folded text", "u": "it's"}},
+			tmpl{"yaml-anchor-name-reused-across-documents", "yaml", fmt.Sprintf("d: &d {k: %s}\nu: *d\n---\nd: &d {k: %s}\nu: *d\nw:\n  <<: *d\n", ns, ms),
+				[]any{map[string]any{"d": map[string]any{"k": n}, "u": map[string]any{"k": n}}, map[string]any{"d": map[string]any{"k": m}, "u": map[string]any{"k": m}, "w": map[string]any{"k": m}}}},
+			tmpl{"yaml-anchor-redefined", "yaml", fmt.Sprintf("a: &d {k: %s}\nb: *d\nc: &d {k: %s}\ne: *d\nf: [*d, *d]\n", ns, ms),
+				map[string]any{"a": map[string]any{"k": n}, "b": map[string]any{"k": n}, "c": map[string]any{"k": m}, "e": map[string]any{"k": m}, "f": []any{map[string]any{"k": m}, map[string]any{"k": m}}}},
+			tmpl{"yaml-alias-of-scalar-and-list", "yaml", fmt.Sprintf("s: &s %s\nl: &l [%s, *s]\nm: {x: *s, y: *l}\n", ns, ms),
+				map[string]any{"s": n, "l": []any{m, n}, "m": map[string]any{"x": n, "y": []any{m, n}}}},
 			tmpl{"toml-dotted", "toml", fmt.Sprintf("a.b.c = %s\na.b.d = %s\na.e = \"x\"\n", ns, ms),
 				map[string]any{"a": map[string]any{"b": map[string]any{"c": n, "d": m}, "e": "x"}}},
 			tmpl{"toml-tables", "toml", fmt.Sprintf("top = %s\n[a]\nx = %s\n[a.b]\ny = 1\n[[l]]\nk = %s\n[[l]]\nk = %s\n", ns, ms, ns, ms),
@@ -234,7 +240,11 @@ func buildC04(tier string) *core.Plan {
 			defer os.RemoveAll(dir)
 			os.WriteFile(filepath.Join(dir, "t."+t.ext), []byte(t.text), 0o644)
 			os.MkdirAll(filepath.Join(dir, "j"), 0o755)
-			os.WriteFile(filepath.Join(dir, "j", "t.json"), []byte(emit.JSON(t.expanded)+"\n"), 0o644)
+			exp := emit.JSON(t.expanded) + "\n"
+			if docs, ok := t.expanded.([]any); ok {
+				exp, _ = emit.Stream("json", docs)
+			}
+			os.WriteFile(filepath.Join(dir, "j", "t.json"), []byte(exp), 0o644)
 			c.Eval()
 			c.Trans(4)
 			p1, p2 := newParser(), newParser()
